@@ -39,7 +39,9 @@ SPEC = {
             "its crash state is materialised WITH the temp file under the name the real code used; a second process's attempt is traced over such a "
             "directory (name + flags -> the discipline HistOK is evaluated by histOKb on every crash point of attempt 1), then the REAL Maintenance "
             "snapshots a smaller state (0-1 records) in-process over each materialised crash state, the target is read back (must be exactly the new "
-            "snapshot, compared with the model's runHist) and loaded by the real loader. A case is non-trivial when it hits a tagged branch; distinct = distinct hash of its lines",
+            "snapshot, compared with the model's runHist) and loaded by the real loader. (f) engine reload, torn cases only: a 3-record notification-log snapshot cut 1..20 bytes before its end in the data directory of the REAL "
+            "application (app.New): it refuses to start and the file is untouched. "
+            "A case is non-trivial when it hits a tagged branch; distinct = distinct hash of its lines",
     "assumptions": [
         "protobuf field codec round-trips (decodeMsg (encodeMsg m) = some m): the harness uses proto.Unmarshal as the oracle for payloads",
         "file system: fsync makes the file's data durable on return; rename is atomic; directory operations persist in order (weak) or on return (strong); "
